@@ -338,9 +338,12 @@ def case_pipeline(case):
     elif kind == "gemmx":
         _, (M, N, K), i8out, lays, setl = case
         src, acc, pre = gemmx_src(M, N, K, i8out, lays), "snax_gemmx", ["dart-scheduler"]
-    elif kind == "gemm4":
+    elif kind in ("gemm4", "gemm4b"):
         _, ta, tb, tc, td = case
         src, acc, pre, setl = gemm4_src(ta, tb, tc, td), "snax_gemmx", ["dart-scheduler"], None
+        if kind == "gemm4b":  # C is a bias vector broadcast over the rows: C[n]
+            src = src.replace("affine_map<(d0, d1, d2) -> (d0, d1)>, affine_map<(d0, d1, d2) -> (d0, d1)>]",
+                              "affine_map<(d0, d1, d2) -> (d1)>, affine_map<(d0, d1, d2) -> (d0, d1)>]")
     else:
         _, TA, TB, TD, mt = case
         src, acc, pre, setl = direct_schedule_src(TA, TB, TD, mt), "snax_gemmx", [], None
@@ -359,6 +362,8 @@ def case_pipeline(case):
         s = f["name"]
         if s.startswith("layout_resolution") and lay.get("offset"):
             s += f"|layout_with_nonzero_offset:{lay.get('kind')}"
+        if s.startswith("stream:") and kind == "gemm4b" and info.get("operand") == 2:
+            s += "|bias_vector_broadcast_over_rows"
         if s.startswith("stream:") and info.get("inner_contiguous") is False:
             s += "|innermost_scheduled_dimension_not_the_contiguous_one"
         return s
@@ -410,6 +415,8 @@ def run(chk):
     for M, N, K in ((16, 16, 16), (8, 16, 8)) + (() if quick else ((16, 8, 24), (24, 16, 8))):
         for tc in (rt(M, N, "i32"), f"memref<{M}x{N}xi32>", f"memref<{M}x{N}xi32, #tsl.tsl<[{M // 8}, 8] -> ({128 * (N // 8)}, 16), [{N // 8}, 8] -> (128, 1)>>"):
             cases.append(("gemm4", rt(M, K, "i8"), ct(K, N, "i8"), tc, rt(M, N, "i32")))
+    for M, N, K in ((16, 16, 16), (8, 16, 8)) + (() if quick else ((16, 8, 8), (24, 16, 8))):
+        cases.append(("gemm4b", rt(M, K, "i8"), ct(K, N, "i8"), f"memref<{N}xi32>", rt(M, N, "i32")))
     # the same buffer as both inputs with different access maps (Gram matrix X * X^T)
     for M, K in ((16, 16), (8, 24), (24, 8)) + (() if quick else ((32, 16), (16, 64))):
         for i8out in (False, True):
@@ -434,4 +441,4 @@ def run(chk):
                   "memref<32x16xi32, #tsl.tsl<[4, 8] -> (64, 8), [2, 8] -> (256, 1)>>", 2))
     chk.add_results("pipeline_observations", pmap(case_pipeline, cases))
     chk.bounds = dict(cases=len(cases), alu_shapes="1-D and 2-D", gemmx_shapes=[str(s) for s in shapes], layouts="identity / strided (incl. offsets) / TSL chosen by set-memory-layout / explicit 2- and 3-level TSL")
-    chk.outside = ["snax_xdma extension stride rewrites", "gemm with add / rescale-only kernels on gemmx", "dynamic shapes", "element widths other than i8/i32/i64"]
+    chk.outside = ["snax_xdma extension stride rewrites", "rescale-only kernels on gemmx", "dynamic shapes", "element widths other than i8/i32/i64"]
